@@ -323,6 +323,7 @@ pub proof fn bw_roundtrip(c: u32, items: Seq<Value>, len: u32)
 }
 
 //@extract fn bigtools/src/bbi/bigwigread.rs get_block_values
+//@rule R16
 //@rule R4 min=6
 //@rule R6 min=1
 //@presub /<R: BBIFileRead>\(\s*bigwig: &mut BigWigRead<R>,/ => (\n    endianness: Endianness,\n    data: Vec<u8>,
